@@ -12,7 +12,8 @@ T1  instances with deadlines relative to now in {past, tight-1, tight, tight+1, 
     TetriSched-CPLEX and Clockwork); TLC judges every decision record.
 T2  solution pools of the captured ILP / TetriSched-Gurobi models -> C12.model_solution.
 R   TLC enumerates the plans that violate only the deadline rule (PlansViolatingOnly); each
-    must be INFEASIBLE in the captured model -> C12.model_admits_late_plan.
+    must be INFEASIBLE in the captured model (Gurobi copies; for TetriSched-CPLEX a clone of the
+    docplex model taken at solve()) -> C12.model_admits_late_plan.
 E   end to end: worlds simulated with ILP (task-by-task), TetriSched-Gurobi, TetriSched-CPLEX
     and Clockwork, enforce_deadlines, zero runtime variance (harness/simrun.run_world); the
     final task states of the trace go to TLC: every COMPLETED task finished by its deadline
@@ -419,13 +420,15 @@ def run(tier: str) -> CheckResult:
     res.notes.append(
         "covered: admission / cancellation answers of EDF, FIFO, Clockwork (one fresh scheduler per call, models pre-loaded), "
         "TetriSched-CPLEX; plans of ILP (task-by-task mode only: with release_taskgraphs the code makes enforcement conditional), "
-        "TetriSched-Gurobi, TetriSched-CPLEX, Clockwork; T2/R on the captured Gurobi models (ILP, TetriSched-Gurobi); the CPLEX "
-        "model is not captured (the scheduler ends it before returning): its deadline mechanism is only seen through returned plans "
-        "and end-to-end runs"
+        "TetriSched-Gurobi, TetriSched-CPLEX, Clockwork; T2 (solution pool) + R on the captured Gurobi models (ILP, TetriSched-Gurobi); "
+        "R only on a clone of the docplex model taken when TetriSched-CPLEX calls solve() (the scheduler ends its own model before "
+        "returning; no pool enumeration with the CPLEX community edition); Z3 is not part of C12 (its deadline constraint is soft)"
     )
     res.assumptions += [
         "TLC; Gurobi's INFEASIBLE answers on models with all decision variables fixed; pools are samples (cap in constants)",
-        "Admit(now, t) == ~(deadline < now + runtime of the fastest strategy), the comparison every policy codes",
+        "Admit(now, t) == ~(deadline < now + runtime of the fastest strategy), the comparison every policy codes; for the cancelling "
+        "policies C12.hopeless_cancelled is read as an equivalence: exactly the non-admitted tasks are answered with CANCEL (a task that "
+        "can still finish with its fastest strategy starting now, deadline == now + runtime included, is not dropped by the admission test)",
         "end to end: final task states (state, completion time, deadline) read by the tracer (harness/simrun.py) from the real tasks",
     ]
     return res
